@@ -1,4 +1,4 @@
 SPECIFICATION Spec
-INVARIANTS P_C14_ReqFaithful P_C14_RespFaithful P_C14_Order P_C14_NoDuplicateOnHostFault P_C14_AbandonedNotRelayed
+INVARIANTS P_C14_ReqFaithful P_C14_RespFaithful P_C14_Order P_C14_NoDuplicateOnHostFault P_C14_AbandonedNotRelayed P_C14_AfterHostClose
 POSTCONDITION Accepted
 CHECK_DEADLOCK FALSE
